@@ -6,19 +6,27 @@ FINDING NoLockout fails for the design as coded (WorkerLife_Finding_Lockout.cfg)
 Binding (B): nine scenarios with relic's real parent side (token/worker.New / monitor / Close, real retry client) and
 real worker processes (the harness binary re-executed as `worker`, running cmdline/workercmd) on the PKCS#11 wire module
 + token model, which tags every call with the process that made it; the harness injects token errors, a failing health
-check, kill -9, a PIN change, a slow signature with Close in flight. Each merged event log is validated by
+check, kill -9, a PIN change, a slow signature with Close in flight, Close at many distances from a kill, a sibling accepting connections while a
+slow successor starts. Each merged event log is validated by
 trace/WorkerLife_Trace; every request's result is checked (signature verified, refusal not retried, loss of a worker
-survived by a retry)."""
+survived by a retry). Finally the whole server runs on worker-backed tokens under concurrent signing requests with a
+fatal token error and a killed worker in the middle (race build; SignServer_Trace)."""
 import json, os
 from vlib.common import *
 from checks.C15 import _absorb
+from checks.C06 import validate_signserver
+from checks.C14 import race_run_seeded, window
 
-SCENARIOS = [("steady", 1), ("two-workers", 2), ("fatal-error", 1), ("refused", 1), ("health-check", 1), ("kill", 1), ("close-in-flight", 1),
-             ("wrong-pin-at-start", 1), ("pin-changed", 1)]
+BASE = [("steady", 1), ("two-workers", 2), ("fatal-error", 1), ("refused", 1), ("health-check", 1), ("kill", 1), ("close-in-flight", 1),
+        ("wrong-pin-at-start", 1), ("respawn-slow-start", 2), ("respawn-under-load", 2), ("pin-changed", 1)]
+
+
+def scenarios(reps):
+    return BASE + [(f"close-during-respawn-{k:02d}", 1) for k in range(reps)]
 
 
 def _cfg(target, extra=""):
-    return (f'CONSTANTS Target = {target}  MaxSpawns = 8  MaxSigns = 60  Tries0 = 3  Variant = "code"\nSPECIFICATION TraceSpec\n'
+    return (f'CONSTANTS Target = {target}  MaxSpawns = 12  MaxSigns = 1000000  Tries0 = 3  Variant = "code"\nSPECIFICATION TraceSpec\n'
             f'INVARIANTS TypeOK LiveBounded BornInOrder CloseDrains{extra}\nPROPERTIES NoSpawnWhileClosing\nPOSTCONDITION TraceAccepted\nCHECK_DEADLOCK FALSE\n')
 
 
@@ -35,6 +43,8 @@ def run(t):
     r = run_tlc("WorkerLife_MC", "WorkerLife_Fixed_Lockout.cfg", timeout=300, want_beh=False, workers=4)
     tlc_must_pass(r, "WorkerLife_Fixed_Lockout")
     run.cov["negative_controls"] = ["SpawnWhileClosing", "design-as-coded violates NoLockout", "StopOnPinReject restores NoLockout"]
+    resp = 6 if t == "quick" else 24
+    SCENARIOS = scenarios(resp)
     d = scratch("x04")
     try:
         reps = 1 if t == "quick" else 3
@@ -42,7 +52,7 @@ def run(t):
         for rep in range(reps):
             od = os.path.join(d, f"run{rep}")
             os.makedirs(od)
-            o = parse_vh_json(run_vh(vh, ["worker-life", od], env={"VERIF_TMP": d, "VERIF_P11_SO": so}, timeout=1500), "worker-life")
+            o = parse_vh_json(run_vh(vh, ["worker-life", od], env={"VERIF_TMP": d, "VERIF_P11_SO": so, "VERIF_RESPAWN_REPS": str(resp)}, timeout=1500), "worker-life")
             _absorb(run, o)
             if o["counters"].get("scenarios") != len(SCENARIOS) and not run.violations:
                 raise NoVerdict(f"only {o['counters'].get('scenarios')} scenarios ran")
@@ -51,7 +61,7 @@ def run(t):
                 total_events += len(lines)
                 ok, consumed, total, resd = validate_trace("WorkerLife_Trace", "wl.cfg", lines, timeout=600, dfs=False, extra_files={"wl.cfg": _cfg(target)})
                 run.cov["traces_validated_against_impl"] += 1
-                if rep == 0:
+                if rep == 0 and not sc.startswith("close-during-respawn-0") or sc.endswith("-00"):
                     run.add_tlc(resd, f"WorkerLife_Trace {sc}")
                 if not ok:
                     bad = lines[max(0, (consumed or 1) - 4):(consumed or 1) + 2]
@@ -65,16 +75,34 @@ def run(t):
                     run.violation({"engine": "worker-life", "scenario": sc, "invariant": resd2.violated or "rejected"},
                                   f"scenario {sc}: automatic respawns submitted a rejected PIN until the token locked it (event {consumed2} of {total2})", {"scenario": sc, "lines": lines})
         run.cov["events_validated"] = total_events
+        # the whole server on worker-backed tokens (race build): real signing requests from 8 clients through relic's
+        # HTTP handler -> worker client -> worker processes -> PKCS#11 wire module -> token model, with a fatal token
+        # error after a third of the requests and kill -9 of a worker after two thirds. Nothing may be lost, every
+        # response is verified by its client, the server's event trace must be a behaviour of SignServer
+        vhr = build_vh(race=True)
+        for k in range(1 if t == "quick" else 4):
+            o, data = race_run_seeded(run, vhr, ["-p11", "-faults", "-n", "120" if t == "quick" else "400", "-c", "8"], f"server-on-workers-{k}", d, True, seed() * 100 + k)
+            if o is None:
+                continue
+            _absorb(run, o)
+            if o["counters"].get("fault_device_removed", 0) + o["counters"].get("fault_worker_killed", 0) < 2 and not run.violations:
+                raise NoVerdict(f"server-on-workers: faults were not injected ({o['counters']})")
+            run.cov.setdefault("server_on_workers", []).append({kk: o["extra"].get(kk) for kk in ("ok", "failed", "verified", "worker_processes", "worker_logins")})
+            lines = data[0]
+            if len(lines) > 1400:
+                lines = window(lines, 200)
+            validate_signserver(run, lines, f"server-on-workers-{k}")
     finally:
         shutil.rmtree(d, ignore_errors=True)
-    run.cov["rule"] = (f"{len(SCENARIOS)} scenarios x {reps} with the real token/worker parent and real worker processes: steady signing; two workers under parallel requests; "
+    run.cov["rule"] = (f"{len(SCENARIOS)} scenario runs x {reps} with the real token/worker parent and real worker processes: steady signing; two workers under parallel requests; "
                        "a fatal token error (CKR_DEVICE_REMOVED) during a signature -> the worker leaves, the request is retried on its successor; a non-fatal token error -> "
                        "reported at once, not retried, the worker stays; a failing health check; kill -9 with a request issued into the gap; Close while the token is busy "
                        "with a signature; a wrong PIN at start; the PIN changed on the token followed by the loss of the worker. Every event log validated against the "
                        "specification (workers numbered by the order in which they reach the token); every request's result checked. non-trivial = all")
     run.cov["exhaustive"] = False
     run.assumptions += ["process identity is the connection to the token model (one per worker process)",
-                        "scenarios wait for quiescence before Close, so the benign race 'a spawn already under way when Close begins' is not exercised",
+                        "a successor that is slow to start is simulated by a sleep in the harness's own `worker` wrapper before relic's worker command runs (it widens the "
+                        "interval between the parent's exec and the child taking over the listening socket; it does not create it)",
                         "restartDelay (10 s) and the health-check interval (1 s in the scenarios) are the code's own timers: the run takes about 45 s"]
     return run.finish()
 
